@@ -223,6 +223,40 @@ func (f FDeleg) Fold(v structform.ExtVisitor) error {
 // folders of RegT and RDur), as an application keeps it in a package variable.
 var SharedFoldOpt = gotype.Folders(FoldRegT, FoldRDur)
 
+// FRefObj implements Folder and reports its key and value BY REFERENCE from one
+// scratch buffer that it overwrites after every call (a folder that formats into
+// a reused buffer). It is a plain struct for the unfolder ({"rk": K}), so it
+// round-trips, also as an inlined field (where the library puts its
+// object-expecting visitor between the folder and the target).
+type FRefObj struct {
+	K string `struct:"rk"`
+}
+
+func (f FRefObj) Fold(v structform.ExtVisitor) error {
+	scratch := make([]byte, 0, 64)
+	scribble := func() {
+		for i := range scratch {
+			scratch[i] = '#'
+		}
+	}
+	if err := v.OnObjectStart(1, structform.AnyType); err != nil {
+		return err
+	}
+	scratch = append(scratch[:0], "rk"...)
+	err := v.OnKeyRef(scratch)
+	scribble()
+	if err != nil {
+		return err
+	}
+	scratch = append(scratch[:0], f.K...)
+	err = v.OnStringRef(scratch)
+	scribble()
+	if err != nil {
+		return err
+	}
+	return v.OnObjectFinished()
+}
+
 // RegT is folded by a registered folder function (Folders option).
 type RegT struct{ X int }
 
@@ -270,6 +304,10 @@ type Tree struct {
 }
 
 type M map[string]M
+
+// LList and Forest contain themselves without passing through a struct.
+type LList []LList
+type Forest map[string][]Forest
 
 // MNode recurses BY VALUE through a map element and has a member after the map.
 type MNode struct {
@@ -326,6 +364,7 @@ var Pool = []PoolType{
 	{Name: "ZeroVal", Type: reflect.TypeOf(ZeroVal{})},
 	{Name: "ZeroPtr", Type: reflect.TypeOf(ZeroPtr{})},
 	{Name: "WithEmb", Type: reflect.TypeOf(WithEmb{})},
+	{Name: "FRefObj", Type: reflect.TypeOf(FRefObj{})},
 	{Name: "FolderObj", Type: reflect.TypeOf(FolderObj{}), FoldOnly: true},
 	{Name: "FolderPtr", Type: reflect.TypeOf(FolderPtr{}), FoldOnly: true},
 	{Name: "FolderScalar", Type: reflect.TypeOf(FolderScalar{}), FoldOnly: true},
@@ -341,6 +380,8 @@ var Pool = []PoolType{
 	{Name: "N", Type: reflect.TypeOf(N{}), Recursive: true},
 	{Name: "Tree", Type: reflect.TypeOf(Tree{}), Recursive: true},
 	{Name: "M", Type: reflect.TypeOf(M(nil)), Recursive: true},
+	{Name: "LList", Type: reflect.TypeOf(LList(nil)), Recursive: true},
+	{Name: "Forest", Type: reflect.TypeOf(Forest(nil)), Recursive: true},
 	{Name: "MNode", Type: reflect.TypeOf(MNode{}), Recursive: true},
 	{Name: "LNode", Type: reflect.TypeOf(LNode{}), Recursive: true},
 }
